@@ -40,7 +40,7 @@ META = {
     "assumptions": ["hash_mode=mixed (unbounded symbolic numbers hash to a constant)"],
 }
 
-QUERIES = ["q:w->m", "q:base(w)", "q:parse(kkw)", "q:parse(Kw)", "q:compat(m)", "q:dim(w/s)", "q:compact", "q:parse-ci", "q:compat-group"]
+QUERIES = ["q:w->m", "q:base(w)", "q:parse(kkw)", "q:parse(Kw)", "q:compat(m)", "q:dim(w/s)", "q:compact", "q:parse-ci", "q:compat-group", "q:bogus-system"]
 CHANGES = ["define", "enable:c1", "enable:c3", "enable:c4", "disable:1", "disable:all", "system:sysA", "system:sysB", "system:None", "other-registry"]
 
 
@@ -71,6 +71,8 @@ def _answers(eng, ureg, x, keep=None):
             v = "DimensionalityError"
         except UndefinedUnitError:
             v = "UndefinedUnitError"
+        except (ValueError, KeyError) as ex:
+            v = type(ex).__name__
         out.append((label, v))
 
     Qy = ureg.Quantity
@@ -119,6 +121,17 @@ def _answers(eng, ureg, x, keep=None):
     ask("compact(1500 w)", lambda: (lambda r: (r.magnitude, str(r.units)))(Qy(eng.num(1500), "w").to_compact()))
     ask("compact(3/2000 m/s)", lambda: (lambda r: (r.magnitude, str(r.units)))(Qy(eng.num(Fraction(3, 2000)), "m/s").to_compact()))
     ask("reduced(w*m/u)", lambda: (lambda r: (r.magnitude, str(r.units)))(Qy(x, "w*m/u").to_reduced_units()))
+    ask("system-names", lambda: sorted(n for n in dir(ureg.sys)))
+    ask("compat(w,nosuchsystem)", lambda: sorted(str(u) for u in ureg.get_compatible_units("w", "nosuchsystem")))
+    # a conversion through a context gives an object of the new dimension, whatever its source
+    # had been asked before
+    def through_context():
+        src = Qy(x, "m")
+        src.dimensionality, src.check("[length]")
+        r = src.to("s", "c2")
+        return (dict(r.dimensionality), r.check("[time]"), r.is_compatible_with("m"))
+
+    ask("to-through-context:dimensionality-of-the-result", through_context)
     if keep is not None:
         ask("kept.to(m)", lambda: keep["q"].to("m").magnitude)
         ask("kept.dimensionality", lambda: dict(keep["q"].dimensionality))
@@ -184,6 +197,13 @@ def h_sequence(eng, ops, quiet=False):
                 try:
                     ureg.parse_units(text, case_sensitive=False)
                 except UndefinedUnitError:
+                    pass
+        elif op == "q:bogus-system":
+            # read-only questions that name something that is not a system (a group, a typo)
+            for bogus in ("grpA", "nosuchsystem"):
+                try:
+                    ureg.get_base_units("w", system=bogus)
+                except (ValueError, KeyError):
                     pass
         elif op == "q:compat-group":
             for grp in ("root", "grpA", "grpB"):
@@ -292,6 +312,34 @@ def h_redefinition_history(eng, pre):
         _same(eng, a, b, f"redefinition:pre={pre}:{la}")
     eng.prove(Eq(used.Quantity(x, "w").to("m").magnitude, 3 * su2 * x), f"redefinition:pre={pre}:dependent-unit-follows")
     eng.prove(Eq(used.get_root_units("w")[0], 3 * su2), f"redefinition:pre={pre}:get_root_units-follows")
+
+
+def h_result_of_context_conversion(eng, asked):
+    """the result of a conversion through a context is an object of the new dimension -- its own
+    answers do not depend on what its source had been asked before the conversion"""
+    W = World(eng)
+    ureg = regs.build(eng, _text(W, late=False))
+    x = eng.real("x")
+    src = ureg.Quantity(x, "m")
+    if asked in ("dimensionality", "all"):
+        src.dimensionality
+    if asked in ("check", "all"):
+        src.check("[length]"), src.is_compatible_with("w")
+    for form in ("per-call", "with-block", "ito"):
+        if form == "per-call":
+            r = src.to("s", "c2")
+        elif form == "with-block":
+            with ureg.context("c2"):
+                r = src.to("s")
+        else:
+            r = ureg.Quantity(x, "m")
+            r.dimensionality
+            r.ito("s", "c2")
+        eng.prove({k: int(v) for k, v in r.dimensionality.items()} == {"[time]": 1}, f"context-conversion:{asked}:{form}:dimensionality-of-the-result")
+        eng.prove(r.check("[time]") and not r.check("[length]"), f"context-conversion:{asked}:{form}:check")
+        eng.prove(r.is_compatible_with("s") and not r.is_compatible_with("m"), f"context-conversion:{asked}:{form}:is_compatible_with")
+        eng.prove(Eq(r.magnitude, x * W.k2), f"context-conversion:{asked}:{form}:value")
+    eng.prove({k: int(v) for k, v in src.dimensionality.items()} == {"[length]": 1}, f"context-conversion:{asked}:source-keeps-its-own")
 
 
 def h_define_parsed_name(eng, pre):
@@ -473,6 +521,8 @@ def cases(tier, seed):
     fp = covers.same_dim_pairs(seed, 400 if big else 60) + [("minute", "second"), ("week", "day"), ("pound", "kilogram"), ("second", "minute"), ("inch", "yard"), ("hour", "millisecond")]
     for pre in ("nothing", "conversions", "roots", "names", "all", "via-load_definitions"):
         out.append(Case("H13", f"redefinition:pre={pre}", M, "h_redefinition_history", {"pre": pre}, opts={"hash_mode": "mixed", "max_paths": 300}, validate=1))
+    for asked in ("nothing", "dimensionality", "check", "all"):
+        out.append(Case("H13", f"context-conversion:{asked}", M, "h_result_of_context_conversion", {"asked": asked}, opts={"hash_mode": "mixed", "max_paths": 300}, validate=1))
     for pre in ("prefixed", "plural", "prefixed-symbol"):
         out.append(Case("H13", f"define-parsed-name:{pre}", M, "h_define_parsed_name", {"pre": pre}, opts={"hash_mode": "mixed", "max_paths": 300}, validate=1))
     for first in ("per-call-kw", "with-kw", "enable-kw", "nested-inherits", "plain"):
